@@ -97,6 +97,22 @@ theorem step_inv (s : St) (a : Act) (h : Conserved s) : Conserved (step s a) := 
         have := hrf hr
         simp [heq] at this ⊢; omega
   | appCancel => exact ⟨hc, hnd, hq, hrf⟩
+  | taskTimeout id =>
+    simp only [step]; split
+    · rename_i hm
+      obtain ⟨_, hm⟩ := hm
+      refine ⟨?_, hnd, hq, ?_⟩
+      · intro x; have := hc x
+        simp only [List.count_cons, List.count_erase]
+        have hpos : 0 < s.tasks.count id := List.count_pos_iff.mpr hm
+        by_cases hx : id = x
+        · subst hx; simp; omega
+        · have : (x == id) = false := by simp; exact fun h => hx h.symm
+          simp [hx, this]; omega
+      · intro hr
+        have := hrf hr
+        simp only [List.length_erase_of_mem hm]; omega
+    · exact ⟨hc, hnd, hq, hrf⟩
 
 /-- the invariant holds in every reachable state, for every schedule -/
 theorem run_inv (s : St) (as : List Act) (h : Conserved s) : Conserved (run s as) := by
@@ -133,6 +149,72 @@ theorem none_lost (cap : Nat) (stalled : List Nat) (rf : Bool) (as : List Act) (
   have h3 : 0 < (run (init cap stalled rf) as).opened.count x := List.count_pos_iff.mpr hx
   simp only
   omega
+
+/-- **The structure the model's action set rests on**, read from the current source: nothing in
+the driver is time-based — a preamble task ends only when its preamble is complete or its
+stream fails, however late the peer's bytes come. -/
+theorem source_driver_has_no_timers : Generated.DRIVER_TIMER_FREE = true := by decide
+
+theorem step_timers (s : St) (a : Act) : (step s a).timers = s.timers := by
+  cases a <;> simp only [step] <;> (repeat' split) <;> rfl
+
+theorem step_dropped (s : St) (a : Act) (ht : s.timers = false) (x : Nat) (hx : x ∈ (step s a).dropped) :
+    x ∈ s.dropped ∨ a = .taskIoErr x := by
+  cases a with
+  | taskIoErr id =>
+    simp only [step] at hx
+    split at hx
+    · simp only [List.mem_cons] at hx
+      rcases hx with h | h
+      · right; rw [h]
+      · left; exact h
+    · left; exact hx
+  | taskTimeout id =>
+    simp only [step, ht, Bool.false_eq_true, false_and, if_false] at hx
+    left; exact hx
+  | peerOpen id => simp only [step] at hx; split at hx <;> (left; exact hx)
+  | workerAccept =>
+    simp only [step] at hx
+    split at hx
+    · left; exact hx
+    · split at hx <;> (left; exact hx)
+  | taskDone id => simp only [step] at hx; split at hx <;> (left; exact hx)
+  | appRecv => simp only [step] at hx; split at hx <;> (left; exact hx)
+  | appCancel => left; exact hx
+
+/-- **No stream is given up on**: in a driver without timers, under every schedule, a stream
+leaves the pipeline undelivered only through an I/O error of that very stream (the peer reset
+it, or the connection ended) — never because its preamble took long. -/
+theorem dropped_only_on_its_own_io_error (cap : Nat) (stalled : List Nat) (rf : Bool) (as : List Act) (x : Nat)
+    (hx : x ∈ (run (init cap stalled rf false) as).dropped) : Act.taskIoErr x ∈ as := by
+  have gen : ∀ (as : List Act) (s : St), s.timers = false → x ∈ (run s as).dropped → x ∈ s.dropped ∨ Act.taskIoErr x ∈ as := by
+    intro as
+    induction as with
+    | nil => intro s _ h; left; exact h
+    | cons a as ih =>
+      intro s ht h
+      simp only [run, List.foldl_cons] at h
+      rcases ih (step s a) (by rw [step_timers]; exact ht) h with h1 | h1
+      · rcases step_dropped s a ht x h1 with h2 | h2
+        · left; exact h2
+        · right; rw [h2]; exact List.mem_cons_self
+      · right; exact List.mem_cons_of_mem _ h1
+  rcases gen as (init cap stalled rf false) rfl hx with h | h
+  · simp [init] at h
+  · exact h
+
+/-- … with what the translator read from the source: the current driver has no timers -/
+theorem C08_none_given_up (cap : Nat) (stalled : List Nat) (rf : Bool) (as : List Act) (x : Nat)
+    (hx : x ∈ (run (init cap stalled rf (!Generated.DRIVER_TIMER_FREE)) as).dropped) : Act.taskIoErr x ∈ as := by
+  rw [source_driver_has_no_timers] at hx
+  exact dropped_only_on_its_own_io_error cap stalled rf as x hx
+
+/-- why it matters: with a deadline on the preamble a stream whose bytes come late is dropped
+although nothing ever failed on it -/
+theorem preamble_deadline_loses_streams :
+    (run (init 4 [] false true) [.peerOpen 2, .workerAccept, .taskTimeout 2, .taskDone 2, .appRecv]).dropped = [2] ∧
+    (run (init 4 [] false true) [.peerOpen 2, .workerAccept, .taskTimeout 2, .taskDone 2, .appRecv]).delivered = [] ∧
+    (run (init 4 [] false false) [.peerOpen 2, .workerAccept, .taskTimeout 2, .taskDone 2, .appRecv]).delivered = [2] := by decide
 
 /-- a cancelled accept call changes nothing (it can be reissued) -/
 theorem cancel_is_noop (s : St) : step s .appCancel = s := rfl
